@@ -122,3 +122,15 @@ pub fn k_hdr_tag_header_payload_len_all() {
     assert!(size >= 8);
     assert!(p == size as usize - 8);
 }
+
+// ---- C14 for the header kind whose natural alignment is 4 (HeaderTagHeader): a slice that starts at an
+// address 4 mod 8 is rejected with WrongAlignment -- the required alignment is the fixed 8 of the
+// Multiboot2 structures, not the header type's own.  All 16 slice bytes symbolic; loop-free => complete.
+#[kani::proof]
+pub fn k_hdrtag_ref_from_slice_4mod8() {
+    let bytes = AlignedBytes(kani::any::<[u8; 24]>());
+    let b = &bytes.0;
+    let r = multiboot2_common::DynSizedStructure::<HeaderTagHeader>::ref_from_slice(&b[4..20]);
+    assert!(matches!(r, Err(multiboot2_common::MemoryError::WrongAlignment)));
+    kani::cover!(b[8] == 0x10 && b[4] == 1);
+}
